@@ -117,41 +117,37 @@ Proof.
   split; [reflexivity|]. split; vm_compute; reflexivity.
 Qed.
 
-(* ---- OER: the reader as it is does not compare the inner decoder's `consumed` with the container ---- *)
+(* ---- OER: the reader compares the inner decoder's `consumed` with the container (C18-fix-9) ---- *)
 
-Theorem oer_open_strict_exhausts : forall t bs v r, oer_dec_open_strict t bs = Some (v, r) ->
+(* accepted => the container holds exactly one encoding of the selected type: nothing of it is left *)
+Theorem oer_open_exhausts : forall t bs v r, oer_dec_open t bs = Some (v, r) ->
   exists n c r0, oer_get_length bs = Some (n, r0) /\ take n r0 = Some (c, r) /\ oer_dec t c = Some (v, []).
 Proof.
-  intros t bs v r H. unfold oer_dec_open_strict in H.
+  intros t bs v r H. unfold oer_dec_open in H.
   destruct (oer_get_length bs) as [[n r0]|] eqn:E1; [|discriminate].
   destruct (take n r0) as [[c r']|] eqn:E2; [|discriminate].
   destruct (oer_dec t c) as [[v' l]|] eqn:E3; [|discriminate].
   destruct l; [|discriminate]. inversion H; subst. exists n, c, r0. repeat split; assumption.
 Qed.
 
-Theorem oer_open_prefix_partial : forall t bs v r, oer_dec_open t bs = Some (v, r) ->
-  exists n c r0 left, oer_get_length bs = Some (n, r0) /\ take n r0 = Some (c, r) /\ oer_dec t c = Some (v, left).
+(* and conversely: a container that is exactly one encoding is accepted, with the octets after it as the rest *)
+Theorem oer_open_accepts : forall t bs n c r0 r v,
+  oer_get_length bs = Some (n, r0) -> take n r0 = Some (c, r) -> oer_dec t c = Some (v, []) ->
+  oer_dec_open t bs = Some (v, r).
 Proof.
-  intros t bs v r H. unfold oer_dec_open in H.
-  destruct (oer_get_length bs) as [[n r0]|] eqn:E1; [|discriminate].
-  destruct (take n r0) as [[c r']|] eqn:E2; [|discriminate].
-  destruct (oer_dec t c) as [[v' l]|] eqn:E3; [|discriminate].
-  inversion H; subst. exists n, c, r0, l. repeat split; assumption.
+  intros t bs n c r0 r v E1 E2 E3. unfold oer_dec_open. rewrite E1, E2, E3. reflexivity.
 Qed.
 
-Theorem oer_open_strict_implies : forall t bs v r, oer_dec_open_strict t bs = Some (v, r) -> oer_dec_open t bs = Some (v, r).
+(* a container the selected type decodes from WITHOUT using it up is refused, whatever is left over (the reading
+   of finding C18-oer-open-type-leftover, which accepted the prefix, is excluded for every type and container) *)
+Theorem oer_open_leftover_rejected : forall t bs n c r0 r v left,
+  oer_get_length bs = Some (n, r0) -> take n r0 = Some (c, r) -> oer_dec t c = Some (v, left) -> left <> [] ->
+  oer_dec_open t bs = None.
 Proof.
-  intros t bs v r H. unfold oer_dec_open_strict in H. unfold oer_dec_open.
-  destruct (oer_get_length bs) as [[n r0]|]; [|discriminate].
-  destruct (take n r0) as [[c r']|]; [|discriminate].
-  destruct (oer_dec t c) as [[v' l]|]; [|discriminate].
-  destruct l; [|discriminate]. exact H.
+  intros t bs n c r0 r v left E1 E2 E3 Hl. unfold oer_dec_open. rewrite E1, E2, E3.
+  destruct left; [contradiction Hl; reflexivity | reflexivity].
 Qed.
 
-(* the full statement "accepted => the container is used up" is false of the reader as it is: a NULL row and the
-   container 00 00 (finding C18-oer-open-type-leftover) *)
-Theorem oer_open_exhausts_refuted : exists t bs v,
-  oer_dec_open t bs = Some (v, []) /\ oer_dec_open_strict t bs = None.
-Proof.
-  exists null_ty, [2; 0; 0], VNull. split; vm_compute; reflexivity.
-Qed.
+(* the former witness of the finding: a NULL row and the container 00 00 *)
+Theorem oer_open_null_leftover_rejected : oer_dec_open null_ty [2; 0; 0] = None /\ oer_dec_open null_ty [0] = Some (VNull, []).
+Proof. split; vm_compute; reflexivity. Qed.
